@@ -378,3 +378,36 @@ fn c13_range_hash_exact_small_domain() {
     println!("VERIF-B-SAMPLE violation classes this run: {:?}", counts);
     println!("VERIF-B unit=hash_utils test=c13_range_hash_exact_small_domain evaluations={evals} nontrivial={nontrivial} exhaustive=true domain=data length 0..={max_len} x pairs of ranges with start,len in 0..={} plus u64 extremes {{2^32,2^63,2^64-1}} x optional marker at every offset (and all marker pairs) x exclusion/inclusion x algs {:?} x read-buffer sizes {:?}", max_len + 1, algs, bufs);
 }
+
+// the read-chunk clause on longer data: every read-buffer size from 1 to the data length + 1 gives the digest of exactly
+// the selected bytes (a range then spans up to `len` chunks, with every possible short last chunk)
+#[test]
+fn c13_chunk_size_independence() {
+    let thorough = std::env::var("VERIF_B_TIER").map(|t| t == "thorough").unwrap_or(false);
+    let max_len: usize = if thorough { 40 } else { 24 };
+    let mut counts = std::collections::BTreeMap::new();
+    let mut evals = 0usize;
+    let mut nontrivial = 0usize;
+    for len in 1..=max_len {
+        let data: Vec<u8> = (0..len as u32).map(|i| (i.wrapping_mul(73).wrapping_add(5) % 251) as u8).collect();
+        let step = if thorough || len <= 12 { 1 } else { 3 };
+        for s in (0..len as u64).step_by(step) {
+            for l in (0..=(len as u64 - s)).step_by(step) {
+                for buf in (1..=len + 1).chain([1usize << 20]) {
+                    // one excluded range (the hashed part is one or two runs of chunks), and the same range as the only
+                    // included one
+                    for exclusion in [true, false] {
+                        let rs = vec![R { start: s, len: l, marker: None }];
+                        evals += 1;
+                        if l > 0 {
+                            nontrivial += 1;
+                        }
+                        eval_case(&data, &rs, exclusion, "sha256", buf, &mut counts);
+                    }
+                }
+            }
+        }
+    }
+    println!("VERIF-B-SAMPLE violation classes this run: {:?}", counts);
+    println!("VERIF-B unit=hash_utils test=c13_chunk_size_independence evaluations={evals} nontrivial={nontrivial} exhaustive=true domain=data length 1..={max_len} x one range (start, len; every one up to length 12, every third above) x exclusion/inclusion x read-buffer size 1..=length+1 and 2^20");
+}
